@@ -63,7 +63,7 @@ def peek(el):
     return v
 
 
-def execute(kind, path, wcfg, ccfg, rcfg, both, seq, switch_rule="AnyOfMany", inherited=False):
+def execute(kind, path, wcfg, ccfg, rcfg, both, seq, switch_rule="AnyOfMany", inherited=False, disabled=False):
     """returns observation dict; seq = tuple of 'v1' | 'v2' | 'same'"""
     import indi.message as M
     from indi.device import values as DV
@@ -100,6 +100,8 @@ def execute(kind, path, wcfg, ccfg, rcfg, both, seq, switch_rule="AnyOfMany", in
             for e in els:
                 e.update(format="%.2f", min=0, max=100, step=0)
         vec = dict(attr="v", kind=kind.split("-")[0], name="V", elements=els)
+        if disabled:
+            vec["enabled"] = False  # a hidden property: handlers run as usual, nothing is published
         if kind == "switch":
             vec["rule"] = switch_rule
         if kind == "switch-oneofmany":
@@ -239,7 +241,7 @@ def render(kind, v):
     return v
 
 
-def judge(kind, path, wcfg, ccfg, rcfg, both, seq, obs):
+def judge(kind, path, wcfg, ccfg, rcfg, both, seq, obs, disabled=False):
     fails = []
     default, v1, v2, refresh = values_for(kind)
     refreshing = any(style == "plain" and refr for style, refr in rcfg)
@@ -303,7 +305,10 @@ def judge(kind, path, wcfg, ccfg, rcfg, both, seq, obs):
         if post != want:
             fails.append(("value-not-taken", d, "wrote %r, element has %r" % (want, post)))
             continue
-        if len(sets) != 1:
+        if disabled:
+            if sets:
+                fails.append(("published-while-disabled", d, "the property is disabled, yet %r was published" % (sets,)))
+        elif len(sets) != 1:
             fails.append(("publication-count", d, "%d update messages published for one write: %r" % (len(sets), sets)))
         else:
             carried = dict(sets[0][1]).get("A")
@@ -377,19 +382,26 @@ def run_shard(shard):
                 if both and not (wcfg or ccfg):
                     continue
                 for seq in sequences(tier):
-                    for inherited in (False, True) if (len(seq) == 1 and not both) else (False,):
-                        obs = execute(kind, path, wcfg, ccfg, rcfg, both, seq, inherited=inherited)
+                    variants = [(False, False)]
+                    if len(seq) == 1 and not both:
+                        variants.append((True, False))
+                    if len(seq) <= 2 and not both:
+                        variants.append((False, True))  # the property is disabled
+                    for inherited, disabled in variants:
+                        obs = execute(kind, path, wcfg, ccfg, rcfg, both, seq, inherited=inherited, disabled=disabled)
                         res["executions"] += 1
                         res["transitions"] += len(obs["ops"])
                         res["counters"]["handler_calls"] = res["counters"].get("handler_calls", 0) + sum(len(o["log"]) for o in obs["ops"])
-                        for clause, disc, what in judge(kind, path, wcfg, ccfg, rcfg, both, seq, obs):
+                        for clause, disc, what in judge(kind, path, wcfg, ccfg, rcfg, both, seq, obs, disabled):
                             if inherited:
                                 disc += ",inherited-handlers"
+                            if disabled:
+                                disc += ",disabled-property"
                             key = (clause, disc)
                             if key in sig:
                                 sig[key]["count"] += 1
                             else:
-                                sig[key] = {"clause": clause, "disc": disc, "count": 1, "what": "W=%r C=%r R=%r both=%r seq=%r: %s" % (wcfg, ccfg, rcfg, both, seq, what), "replay": dict(kind=kind, path=path, wcfg=wcfg, ccfg=ccfg, rcfg=rcfg, both=both, seq=seq, inherited=inherited)}
+                                sig[key] = {"clause": clause, "disc": disc, "count": 1, "what": "W=%r C=%r R=%r both=%r seq=%r: %s" % (wcfg, ccfg, rcfg, both, seq, what), "replay": dict(kind=kind, path=path, wcfg=wcfg, ccfg=ccfg, rcfg=rcfg, both=both, seq=seq, inherited=inherited, disabled=disabled)}
     res["states"] = res["executions"]
     res["violations"] = list(sig.values())
     if kind == "text" and path == "client" and wi == 4:
@@ -420,5 +432,6 @@ def _t(x):
 def replay(rep):
     a = [rep["kind"], rep["path"], _t(rep["wcfg"]), _t(rep["ccfg"]), _t(rep["rcfg"]), rep["both"], _t(rep["seq"])]
     inh = rep.get("inherited", False)
-    obs = execute(*a, inherited=inh)
-    return [{"clause": c, "disc": d + (",inherited-handlers" if inh else ""), "what": w} for c, d, w in judge(*a, obs)]
+    dis = rep.get("disabled", False)
+    obs = execute(*a, inherited=inh, disabled=dis)
+    return [{"clause": c, "disc": d + (",inherited-handlers" if inh else "") + (",disabled-property" if dis else ""), "what": w} for c, d, w in judge(*a, obs, dis)]
